@@ -25,6 +25,7 @@ def run(tier):
     # stored - including the TTL the server keeps for it - is observed after time has passed
     et = kv.emit(c, "kv-time-redis", kv.consts(pats="Pats2", invals=("x",), exps=("none", "s1", "s3"), maxnow=4), workers=6)
     c.replay("kv", et, variant="redis", timeout=2400)
+    wide(c)
     if not c.quick():
         selftest(c, emits[0])
     c.assumptions += ["keys without a leading '/' (the Redis client strips leading slashes; not part of the stated contract)",
@@ -58,3 +59,21 @@ def selftest(c, emitted):
                 raise vcheck.Broken("selftest: corrupted behaviour was not rejected by the replay")
             return
     c.selftest = {"ran": False}
+
+
+def wide(c):
+    """GetMany / PutMany with up to 1000 keys in one call, on both backends (validated by WideTrace.tla)."""
+    import json
+    for variant in ("inmem", "redis"):
+        trace = c.path("trace", "kvwide-%s.ndjson" % variant)
+        c.run_vh(["drive", "kvwide", "-seed", c.seed, "-out", trace, "-variant", variant], timeout=600)
+        cfg = c.write_cfg("kv", "WideTrace", postcondition="Accepted")
+        ok, at, _ = c.validate_trace("kv", "WideTrace", cfg, trace, label="WideTrace-" + variant)
+        if ok:
+            c.traces_validated += 1
+            continue
+        ev = json.loads(open(trace).read().splitlines()[at - 1])
+        bad = [s for s in ev.get("slots", []) if s[0] != s[1] or (s[0] == 1 and s[2] != s[3])][:5]
+        c.report_failure("kv: GetMany with %s keys (%s): a slot does not hold the record of the requested key" % (
+                         "more than 64" if ev.get("n", 0) > 64 else "few", variant),
+                         {"rejected_at_line": at, "n": ev.get("n"), "err": ev.get("err"), "len": ev.get("len"), "first_bad_slots": bad})
